@@ -210,7 +210,7 @@ def run_chunks(prop, tier, seed, total, jobs, workdir, known_path, extra_args=()
             cmd = [BIN, "run", "--prop", prop, "--tier", tier, "--seed", str(seed), "--from", str(cur),
                    "--to", str(b), "--out", out, "--known", known_path] + list(extra_args)
             crash = None
-            tmo = PROPS[prop].get("chunk_timeout", {"quick": 240, "thorough": 7200})[tier] if isinstance(PROPS[prop].get("chunk_timeout", {}), dict) else PROPS[prop]["chunk_timeout"]
+            tmo = PROPS[prop].get("chunk_timeout", {"quick": 1800, "thorough": 14400})[tier] if isinstance(PROPS[prop].get("chunk_timeout", {}), dict) else PROPS[prop]["chunk_timeout"]
             proc = subprocess.Popen(cmd, stdout=subprocess.PIPE, stderr=subprocess.DEVNULL, text=True)
             try:
                 stdout, _ = proc.communicate(timeout=tmo)
@@ -222,11 +222,11 @@ def run_chunks(prop, tier, seed, total, jobs, workdir, known_path, extra_args=()
                 except subprocess.TimeoutExpired:
                     proc.kill()
                     stdout, _ = proc.communicate()
-                crash = "TIMEOUT"
-                for line in (stdout or "").splitlines():
-                    if line.startswith("CRASH"):
-                        crash = "TIMEOUT " + line
-                stdout = ""
+                # The worker's own watchdog reports a run that makes no progress for 45 s. Getting here means the worker
+                # was still progressing, only too slowly for the budget (overloaded machine): that is a harness problem,
+                # not a violation - there would be no replay that reproduces it.
+                rep_all.append({"harness_error": "chunk %d..%d exceeded %d s while still progressing (%s)" % (cur, b, tmo, " ".join((stdout or "").split()[:4])), "from": cur, "to": b})
+                return rep_all
 
             class _P:
                 pass
